@@ -5,6 +5,7 @@
    strings, bools, values of defined types (any depth), slices of every element type (nil or
    not, any elements), arrays, maps, pointers, funcs, channels (typed nils included), structs. *)
 From Flyt Require Import Values Accessors ValuesCorr ValuesProofs.
+From Flyt Require Import C15Glue.
 #[local] Open Scope Z_scope.
 
 (* totality: in the model the non-Must accessors have no panicking outcome at all (their
@@ -26,15 +27,7 @@ Theorem C15_variants :
     must_slice v = (if snd (as_slice v) then OVal (fst (as_slice v)) else OPanic) /\
     (forall d, as_map_or d v = (if snd (as_map v) then fst (as_map v) else d)) /\
     must_map v = (if snd (as_map v) then OVal (fst (as_map v)) else OPanic).
-Proof.
-  intros v.
-  exact (conj (fun d => proj1 (string_variants d v)) (conj (proj2 (string_variants 0%nat v))
-        (conj (fun d => proj1 (int_variants d v)) (conj (proj2 (int_variants 0 v))
-        (conj (fun d => proj1 (float64_variants d v)) (conj (proj2 (float64_variants 0 v))
-        (conj (fun d => proj1 (bool_variants d v)) (conj (proj2 (bool_variants true v))
-        (conj (fun d => proj1 (slice_variants d v)) (conj (proj2 (slice_variants sl_nil v))
-        (conj (fun d => proj1 (map_variants d v)) (proj2 (map_variants mp_nil v))))))))))))).
-Qed.
+Proof. exact C15_variants_glue. Qed.
 Print Assumptions C15_variants.
 
 (* the store getter (a second copy of each type switch in the Go code) agrees with the result
@@ -47,12 +40,7 @@ Theorem C15_store_result :
     (forall d, get_bool_or d (Some v) = as_bool_or d v) /\
     (forall d, get_slice_or d (Some v) = as_slice_or d v) /\
     (forall d, get_map_or d (Some v) = as_map_or d v).
-Proof.
-  intros v.
-  exact (conj (fun d => store_result_string d v) (conj (fun d => store_result_int d v)
-        (conj (fun d => store_result_float64 d v) (conj (fun d => store_result_bool d v)
-        (conj (fun d => store_result_slice d v) (fun d => store_result_map d v)))))).
-Qed.
+Proof. exact C15_store_result_glue. Qed.
 Print Assumptions C15_store_result.
 
 Theorem C15_store_missing :
